@@ -37,7 +37,7 @@ class CmsDriver:
             self.obj = StreamThreshold(threshold=case["threshold"], **kw)
         self.w, self.d = self.obj.width, self.obj.depth
         self.qt = "min"
-        if P.get("vary_query") and self.cls == "st" and case.get("qt") in ("mean", "mean-min") and (case["qt"] == "mean" or self.w >= 2):
+        if P.get("vary_query") and self.cls in ("st", "hh") and case.get("qt") in ("mean", "mean-min") and (case["qt"] == "mean" or self.w >= 2):
             # the threshold table is defined by the RETURNED estimates, whatever the query type
             self.qt = case["qt"]
             self.obj.query_type = self.qt
@@ -312,7 +312,9 @@ class CmsDriver:
         for k, v in table.items():
             ctx.check(name, k in self.last and v == self.last[k],
                       lambda: f"{what}: table[{k!r}] = {v} but its most recent add returned {self.last.get(k)}")
-        if table:
+        if table and self.qt == "min":
+            # (with the mean / mean-min queries an estimate can DROP from one add to the next, so a key refused earlier may now
+            # exceed the smallest tracked one without anything being wrong: that clause is judged for the min query only)
             lo = min(table.values())
             for k in seen:
                 if k not in table:
@@ -371,7 +373,7 @@ def case_strategy(tier, classes=("cms",), allow_clear=False, max_ops=40, small=F
              "hitters": draw(st.integers(1, 4)), "threshold": draw(st.integers(1, 8))}
         if not small and draw(st.integers(0, 7)) == 0:
             c["conf"] = draw(st.sampled_from([0.5, 0.75, 0.9, 0.99]))
-            c["err"] = draw(st.sampled_from([0.5, 0.25, 0.1, 0.01, 0.001]))
+            c["err"] = draw(st.sampled_from([0.5, 0.25, 0.1, 0.01, 0.001, 0.0001]))  # (0.0001: 20000 columns - arrays beyond 64 Ki cells)
         else:
             c["w"] = draw(st.one_of(st.integers(1, 3), st.integers(1, 3), st.integers(1, 4 if small else 8),
                                     st.integers(1, 4 if small else 64)))
